@@ -11,7 +11,8 @@
 From Coq Require Import List NArith ZArith Bool.
 From ApiFu Require Import Base.Sexp Intro.Utf8 Intro.IntrospectModel Intro.MarshalValue Intro.LiteralSpec
      Intro.IntrospectSpec Intro.Rebuild Intro.RebuildSpec Intro.Clone
-     Intro.GraphProofs Intro.IntrospectProofs Intro.RefsProofs Intro.MarshalProofs Intro.RebuildProofs Intro.CloneProofs.
+     Intro.GraphProofs Intro.IntrospectProofs Intro.RefsProofs Intro.MarshalProofs Intro.RebuildProofs Intro.CloneProofs
+     Intro.Refuted.
 Import ListNotations.
 
 (** ** which types are listed *)
@@ -79,6 +80,15 @@ Theorem C10_default_roundtrip_partial : forall (S : schema), enums_ok S -> foral
   exists txt, marshal S v t = MOk txt /\ literal_denotes S t txt v = true.
 Proof. exact default_roundtrip_values. Qed.
 
+(** KNOWN (key default-string-astral): the restriction of [printable] to U+0000..U+FFFF cannot be
+    dropped.  encoding/json leaves an astral character as its four UTF-8 bytes, the lexer's source
+    characters end at U+FFFF and its \u escape knows no surrogate pairs, so the printed default of
+    a string containing U+1F600 is not a literal of api-fu's GraphQL dialect at all. *)
+Theorem C10_default_astral_refuted :
+  exists S v t, enums_ok S /\ default_conforms S v t = true /\
+    exists txt, marshal S v t = MOk txt /\ literal_denotes S t txt v = false.
+Proof. exact default_astral_refuted. Qed.
+
 (** ** stage 2: rebuild *)
 
 (** A definition rebuilt by SchemaData.GetSchemaDefinition from the response is, for validation
@@ -103,6 +113,19 @@ Theorem C10_rebuild_same_verdicts : forall S F r,
   introspect (print_default S) S F = IntroOk r ->
   exists R, rebuild (map_defaults dflt_text r) = Some R /\ canon R = canon (erase S F).
 Proof. exact rebuild_same_for_validation. Qed.
+
+(** KNOWN (key rebuilt-scalar-accepts-any-literal): [scalars_accept_all] cannot be dropped.  With
+    every other hypothesis in place, a custom scalar whose literal coercion rejects something is
+    rebuilt as a scalar that accepts everything (introspection does not carry coercions). *)
+Theorem C10_rebuild_picky_scalar_refuted :
+  exists S F r R,
+    depth_ok S = true /\ gating_coherent S F = true /\ interfaces_declared_once S = true /\ locations_known S = true /\
+    refs_defined S = true /\ gating_nested S = true /\ roots_visible S F = true /\
+    builtins_consistent S = true /\ kinds_ok S = true /\ defaults_denote S /\
+    scalars_accept_all S = false /\
+    introspect (print_default S) S F = IntroOk r /\
+    rebuild (map_defaults dflt_text r) = Some R /\ canon R <> canon (erase S F).
+Proof. exact rebuild_picky_scalar_refuted. Qed.
 
 (** ** stage 2: Clone *)
 
@@ -132,7 +155,9 @@ Print Assumptions C10_types_listed_once.
 Print Assumptions C10_introspect_describes.
 Print Assumptions C10_introspect_refs_resolve.
 Print Assumptions C10_default_roundtrip_partial.
+Print Assumptions C10_default_astral_refuted.
 Print Assumptions C10_rebuild_same_verdicts.
+Print Assumptions C10_rebuild_picky_scalar_refuted.
 Print Assumptions C10_clone_same_definition.
 Print Assumptions C10_clone_introspects_same.
 Print Assumptions C10_clone_fresh.
